@@ -13,13 +13,15 @@ Open Scope N_scope.
    arbitrary code point lists, so every byte value in every position, plus
    --ftp-user/--ftp-password values, restart offset, file or listing - for every
    byte stream the server may send on the control and data connections, every
-   segmentation oracle of both, fresh or reused connection and any cached login:
+   segmentation oracle of both and every arrival schedule [net] (interleaving of
+   control and data arrivals with the client's steps), fresh or reused connection
+   and any cached login:
    every write on the control connection is NAME SP arg CRLF with NAME one of
    the nine command names and no CR, LF or NUL in arg (so splitting the written
    bytes on CRLF gives exactly that one command). *)
 Theorem C17_one_line :
-  forall limit q fresh cached ctrl data s' r,
-    visit limit q fresh cached (mkSess ctrl data []) = (s', r) ->
+  forall limit q fresh cached ctrl data net s' r,
+    visit limit q fresh cached (mkSess ctrl data [] net) = (s', r) ->
     Forall (fun ev => match ev with
                       | EvWrite bs =>
                           (exists name arg, In name command_names /\ Forall safe_byte arg
@@ -69,18 +71,24 @@ Print Assumptions C17_reply_matches_reference.
    transfer only if its trace ends: ... control phase (no data event) ..., the
    data chunks - which are ALL bytes of the data connection, in order -, EOF of
    the data connection, THEN a reply read from the control connection whose code
-   is 226, then the close of the data stream. *)
+   is 226, then the close of the data stream.  [s] is arbitrary: every buffer
+   state, both segmentation oracles and every arrival schedule [s_net s] - so
+   also when the bytes of the 226 arrived in the control buffer long before the
+   data connection closed: the 226 is the reply that the control bytes left
+   unread at the end of the control phase ([s1]) parse to, and it is consumed
+   after the EOF. *)
 Theorem C17_complete_only_after_226 :
   forall limit q fresh cached s s' r,
     visit limit q fresh cached s = (s', Ok r) ->
-    exists t1 chunks text s1 c',
+    exists t1 chunks text s1 rest,
       s_tr s' = s_tr s ++ t1 ++ map EvData chunks ++ [EvDataEof; EvReply 226; EvDataClose]
       /\ s_tr s1 = s_tr s ++ t1
       /\ Forall ctl_event t1
       /\ concat chunks = stream (s_data s)
       /\ stream (s_data s') = []
       /\ r = (226, text)
-      /\ read_reply_run limit (s_ctrl s1) = RROk 226 text c'.
+      /\ reply_of_stream limit (stream (s_ctrl s1)) = SOk 226 text rest
+      /\ stream (s_ctrl s') = rest.
 Proof. exact visit_complete_only_after_226. Qed.
 Print Assumptions C17_complete_only_after_226.
 
@@ -92,10 +100,14 @@ Definition bytes_ok : list N :=      (* 220 hi / 331 pw / 230 in / 213 5 / 200 o
    49;53;48;32;103;111;13;10; 50;50;54;32;100;111;110;101;13;10].
 
 (* a complete visit of /a over a control stream cut 3,1,6,1,1,... and a data
-   stream cut 2,1,1,1: reported complete, six one-line commands *)
+   stream cut 2,1,1,1, with an arrival schedule that puts the whole control
+   stream - the 226 included - into the control buffer right after USER and three
+   data bytes into the data buffer when the data connection opens: reported
+   complete, six one-line commands *)
 Example C17_nonvacuous_complete :
   let '(s', r) := visit 65536 (mkReq [] [] None None [47; 97] None false) true None
-                    (mkSess (mkConn [] bytes_ok [2; 0; 5]%nat) (mkConn [] [104; 101; 108; 108; 111] [1]%nat) []) in
+                    (mkSess (mkConn [] bytes_ok [2; 0; 5]%nat) (mkConn [] [104; 101; 108; 108; 111] [1]%nat) []
+                            [(0, 0); (70, 0); (0, 0); (0, 0); (0, 0); (0, 0); (0, 0); (0, 0); (0, 0); (0, 0); (0, 0); (0, 0); (0, 3)]%nat) in
   r = Ok (226, [100; 111; 110; 101])
   /\ length (filter (fun ev => match ev with EvWrite _ => true | _ => false end) (s_tr s')) = 6%nat.
 Proof. vm_compute. split; reflexivity. Qed.
@@ -103,14 +115,14 @@ Proof. vm_compute. split; reflexivity. Qed.
 (* /a CR LF DELE b : USER and PASS go out, SIZE is refused, nothing else is written *)
 Example C17_nonvacuous_injection :
   let '(s', r) := visit 65536 (mkReq [] [] None None [47; 97; 13; 10; 68; 69; 76; 69; 32; 98] None false) true None
-                    (mkSess (mkConn [] bytes_ok [2; 0; 5]%nat) (mkConn [] [104] []) []) in
+                    (mkSess (mkConn [] bytes_ok [2; 0; 5]%nat) (mkConn [] [104] []) [] []) in
   r = Err EProtocol
   /\ length (filter (fun ev => match ev with EvWrite _ => true | _ => false end) (s_tr s')) = 2%nat.
 Proof. vm_compute. split; reflexivity. Qed.
 
 (* the data connection closes but the server answers 426 instead of 226: not complete *)
 Example C17_nonvacuous_no_226 :
-  snd (read_stream 65536 (mkSess (mkConn [] [52;50;54;32;120;13;10] []) (mkConn [] [104; 105] []) []))
+  snd (read_stream 65536 (mkSess (mkConn [] [52;50;54;32;120;13;10] []) (mkConn [] [104; 105] []) [] [(7, 1)]%nat))
   = Err (EServer 426).
 Proof. vm_compute. reflexivity. Qed.
 
